@@ -225,6 +225,14 @@ theorem concat_withBodyPartP (f a : Bool) (x y : List FP) (i : Nat) :
   · simp [concat_stripIndentPrefixP]
   · split <;> simp
 
+theorem concat_attrP : ∀ (attrs : List Text), concat (attrP attrs) = attrText attrs
+  | [] => rfl
+  | [a] => by simp [attrP, attrText]
+  | a :: b :: rest => by
+    have ih := concat_attrP (b :: rest)
+    simp only [attrP, attrText, concat_cons, text_tok, ih]
+    simp
+
 /-! ### the piece-level renderer concatenates to the string-level renderer -/
 
 mutual
@@ -294,6 +302,12 @@ theorem concat_rebuildAP : (e : Expr) → ∀ (na : Bool) (i : Nat) (b : Bool),
     simp only [Expr.rebuildAP, Expr.rebuildA]
     simp only [concat_append, concat_cons, concat_nil, text_tok, text_ws, concat_addTriviaP, apply_ite concat, ihc, ihb,
       List.append_assoc, List.nil_append, List.cons_append, List.append_nil]
+  | .sel expr attrs g ab before after, na, i, b => by
+    have ihe := concat_rebuildAP expr
+    simp only [Expr.rebuildAP, Expr.rebuildA, concat_addTriviaP]
+    congr 1
+    simp only [concat_append, concat_cons, concat_nil, text_tok, text_ws, ihe, concat_attrP, List.append_assoc,
+      List.nil_append, List.cons_append, List.append_nil]
 theorem concat_rebuildAllP : (es : List Expr) → ∀ (i : Nat) (b : Bool),
     (rebuildAllP es i b).map concat = rebuildAll es i b
   | [], i, b => rfl
@@ -307,6 +321,7 @@ theorem concat_previewP : (e : Expr) → ∀ (i : Nat), (e.previewP i).map conca
   | .app .., i => rfl
   | .wth .., i => rfl
   | .asrt .., i => rfl
+  | .sel .., i => rfl
   | .list value ml inner before after, i => by
     have ihs := fun i b => concat_rebuildAllP value i b
     simp only [Expr.previewP, Expr.preview]
